@@ -1320,6 +1320,26 @@ pub fn configs(prop: CProp, tier: Tier) -> Vec<CCfg> {
                     }
                 }
             }
+            // the abandoned call's deadline is far beyond what the deadline timers support
+            // (10 years): it is cancelled like any other (seeded change C03f armed no timer for
+            // such a call and then lost its cancellation)
+            if prop == CProp::C03 {
+                for (fl, cap) in [(Flavour::Always, 1usize), (Flavour::Coupled, 1)] {
+                    for n in 1..=2usize {
+                        for k in 1..=2u32 {
+                            let mut callers: Vec<CallerCfg> = (0..n).map(|_| CallerCfg::simple(true)).collect();
+                            callers[0].answered = false;
+                            callers[0].deadline_ms = 3650 * 86_400_000;
+                            callers[0].script = Script::AbandonAfter(k);
+                            // (another handle stays alive, so the dispatch keeps running after
+                            // the abandonment instead of shutting the connection down)
+                            let mut c = base(callers, 2, 1, fl, cap, alpha);
+                            c.keep_root = true;
+                            out.push(c);
+                        }
+                    }
+                }
+            }
             // transient transport faults around the cancellation: a Cancel whose write fails was
             // not transmitted - either the connection is then reported lost or it is sent again
             // (seeded change C03d: the write error was swallowed and the dispatch carried on)
